@@ -21,9 +21,13 @@ POLY_COV_EPS = 1e-13    # covariance: relative difference allowed per unit of co
 KAPPA_MAX = 1e8         # condition estimate beyond which a case is counted as skipped
 COS_MAX = 5e-4          # stationarity: sqrt(g^T (J^T W J)^-1 g) / ||r/s||  (scipy ftol = 1.49e-8
 #                         bounds the relative excess of S by ftol, i.e. this cosine by 1.2e-4)
+XTOL_SLACK = 2e-7       # see judge_c06: residuals of size xtol*|y/s| are not judged
 NL_COV_REL = 3e-3       # scipy's covariance comes from the forward-difference Jacobian of the
 #                         last-but-one iterate: observed up to 4e-5
 NOISE_FREE_REL = 1e-6
+
+
+PARTIAL = collections.Counter()     # clauses not judged on otherwise judged cases
 
 
 def _worker_observe(args):
@@ -160,9 +164,11 @@ def judge_c06(case, o, r):
         jn = [unbits(v) for v in r["jn"]]
         gv = [a for a, _ in g]
         quad = sum(gv[k] * cov[k][l] * gv[l] for k in range(m) for l in range(m))
-        # rounding in the residuals themselves (noise-free data: r is rounding noise of size
-        # eps*|y|, and |g_k| <= |J_k/s| |r/s| by Cauchy-Schwarz)
-        gslack = 1e-10 * unbits(r["yn"])
+        # (nearly) noise-free data: the optimiser stops at a relative accuracy xtol = 1.49e-8 of
+        # the parameters, so r = J (p* - p) + rounding has size ~1e-8 |y/s| and lies entirely in
+        # the column space of J (cosine 1 although the fit is as converged as it can be);
+        # |g_k| <= |J_k/s| |r/s| by Cauchy-Schwarz, so this slack is in units of |y/s|
+        gslack = XTOL_SLACK * unbits(r["yn"])
         cosp = math.sqrt(max(quad, 0.0))
         if not cosp <= COS_MAX * rn + gslack + 1e-300:
             fails.append(fail(
@@ -183,7 +189,15 @@ def judge_c06(case, o, r):
                         "generating parameter {} of noise-free data not reproduced".format(k),
                         case, impl=o["popt"], expected=case["ptrue"], clause="noise-free data"))
                     break
-        if not fails:
+        # scipy's covariance is built from MINPACK's forward-difference Jacobian with step
+        # 1.5e-8*|p_k|: for a parameter that is (almost) 0 the step underflows the rounding of f
+        # and that column of J is noise (relative error ~ 7e-9 |f| / (|p_k| |J_k|)).  Such cases
+        # say nothing about qexpy: the covariance clause is not judged on them (counted).
+        yn = unbits(r["yn"])
+        fd_ok = all(abs(o["popt"][k]) * jn[k] >= 1e-4 * yn for k in range(m))
+        if not fd_ok:
+            PARTIAL["covariance-not-judged:parameter-near-zero"] += 1
+        if not fails and fd_ok:
             for i in range(m):
                 for j in range(m):
                     sc = math.sqrt(cov[i][i] * cov[j][j])
@@ -250,6 +264,7 @@ def run_c06(ctx, cases, ref=False):
                                  k, o["exception"]), c,
                              clause="every way of passing the data / every x-range"))
     mod = ctx.model(lines, ref=ref) if lines else []
+    PARTIAL.clear()
     for (c, o), r in zip(idx, mod):
         fs, sk = judge_c06(c, o, r)
         if sk:
@@ -266,6 +281,7 @@ def run_c06(ctx, cases, ref=False):
                             "certificate": {"n_selected": r.get("n"),
                                             "grad": [fb(v)[0] for v in r["grad"]],
                                             "kappa": unbits(r["kappa"])}})
+    dist.update(PARTIAL)
     return {"evaluations": len(idx) + len(raised), "nontrivial": nontrivial, "failures": failures,
             "samples": samples, "distribution": dict(dist), "skipped": skipped}
 
